@@ -465,11 +465,65 @@ class FuncCanon(object):
             if not (self.pass_blocks()):
                 break
 
+    def websplit(self):
+        """A local name reused for independent values (every read follows, in the same block, the plain assignment it
+        belongs to, with no other assignment of the name in between): each assignment-and-its-reads gets its own name, so the
+        single-assignment rewrites apply to each of them."""
+        for v, stores in sorted(self.stores.items()):
+            if len(stores) < 2 or v in self.params or v in self.captured or "__w" in v:
+                continue
+            if not all(isinstance(s_, ast.Name) for s_ in stores):
+                continue
+            loads = self.loads.get(v, [])
+            webs = []          # (store Name node, [load nodes])
+            claimed = set()
+            plain = 0
+            ok = True
+            for blk in _all_blocks(self.fn):
+                for k, st in enumerate(blk):
+                    if not (isinstance(st, ast.Assign) and len(st.targets) == 1 and isinstance(st.targets[0], ast.Name) and st.targets[0].id == v):
+                        continue
+                    plain += 1
+                    if any(isinstance(n, ast.Name) and n.id == v for n in ast.walk(st.value)):
+                        ok = False
+                    region = []
+                    for nxt in blk[k + 1:]:
+                        if isinstance(nxt, ast.Assign) and len(nxt.targets) == 1 and isinstance(nxt.targets[0], ast.Name) and nxt.targets[0].id == v:
+                            # the value side of the next assignment still belongs to this web
+                            region.append(nxt.value)
+                            break
+                        region.append(nxt)
+                    mine = []
+                    for r in region:
+                        for n in ast.walk(r):
+                            if isinstance(n, ast.Name) and n.id == v:
+                                if isinstance(n.ctx, ast.Load):
+                                    mine.append(n)
+                                else:
+                                    ok = False      # a nested re-assignment inside the region
+                    for n in mine:
+                        if id(n) in claimed:
+                            ok = False
+                        claimed.add(id(n))
+                    webs.append((st.targets[0], mine))
+            if not ok or plain != len(stores) or any(id(l) not in claimed for l in loads):
+                continue
+            for idx, (store, mine) in enumerate(webs[1:], start=2):
+                new = "%s__w%d" % (v, idx)
+                store.id = new
+                for n in mine:
+                    n.id = new
+            self.bump("WEBSPLIT")
+            return True
+        return False
+
     def pass_blocks(self):
+        if self.websplit():
+            return True
         changed = False
         for blk in _all_blocks(self.fn):
             top = blk is self.fn.body
-            if self.star(blk) or self.kw(blk) or self.split(blk) or self.retsplit(blk) or self.forelse(blk) or self.rot(blk) or self.brk(blk, top) or self.wtop(blk) or self.ifs(blk) or self.sink(blk) or self.unpack(blk) or self.fwd(blk):
+            if self.star(blk) or self.thread(blk) or self.deadstore(blk) or self.kw(blk) or self.split(blk) or self.retsplit(blk) or self.forelse(blk) or self.rot(blk) or self.brk(blk, top) or self.wtop(blk) or self.ifs(blk) or self.sink(blk) or self.unpack(blk) or self.fwd(blk):
                 return True
         return changed
 
@@ -548,6 +602,98 @@ class FuncCanon(object):
             if isinstance(n, ast.Lambda):
                 continue
             stack.extend(ast.iter_child_nodes(n))
+
+    # -- THREAD ----------------------------------------------------------------------------------------------------
+    def thread(self, blk):
+        """Jump threading through a test on a value that every exit of the preceding loop has just set to a literal:
+        `loop: .. v = (a, b); break .. [else: v = None]` ; `if v is not None: B(leaves the function)`
+        ->  the breaks that make the test true run B themselves, the test disappears."""
+        for i in range(len(blk) - 1):
+            lp, iff = blk[i], blk[i + 1]
+            if not (isinstance(lp, (ast.While, ast.For, ast.AsyncFor)) and isinstance(iff, ast.If) and not iff.orelse):
+                continue
+            t = iff.test
+            neg = False
+            if isinstance(t, ast.UnaryOp) and isinstance(t.op, ast.Not):
+                t, neg = t.operand, True
+            mode = None
+            if isinstance(t, ast.Name):
+                v, mode = t.id, "truthy"
+            elif isinstance(t, ast.Compare) and len(t.ops) == 1 and isinstance(t.left, ast.Name) and isinstance(t.comparators[0], ast.Constant) and t.comparators[0].value is None and isinstance(t.ops[0], (ast.Is, ast.IsNot)):
+                v, mode = t.left.id, "isnot" if isinstance(t.ops[0], ast.IsNot) else "is"
+            if mode is None or v in self.params or v in self.captured:
+                continue
+            if not always_leaves_function(iff.body) or _size(iff.body) > 2 or any(_has_call_other_than_pure(x) for x in iff.body):
+                continue
+
+            def decide(e):
+                """truth of the test for v == e; None if unknown"""
+                if isinstance(e, ast.Constant):
+                    isnone, truthy = e.value is None, bool(e.value)
+                elif isinstance(e, (ast.Tuple, ast.List)) and e.elts and not any(isinstance(x, ast.Starred) for x in e.elts):
+                    isnone, truthy = False, True
+                else:
+                    return None
+                r = truthy if mode == "truthy" else (not isnone if mode == "isnot" else isnone)
+                return (not r) if neg else r
+            sites = _own_breaks(lp.body)
+            if any(o is None for o, _k in sites):
+                continue
+            arrivals = []       # (owner list, index of the assignment, verdict)
+            ok = True
+            for owner, k in sites:
+                if k == 0 or not (isinstance(owner[k - 1], ast.Assign) and len(owner[k - 1].targets) == 1 and isinstance(owner[k - 1].targets[0], ast.Name) and owner[k - 1].targets[0].id == v):
+                    ok = False
+                    break
+                d = decide(owner[k - 1].value)
+                if d is None:
+                    ok = False
+                    break
+                arrivals.append((owner, k, d))
+            if not ok:
+                continue
+            infinite = isinstance(lp, ast.While) and _is_const_true(lp.test)
+            else_verdict = None
+            if not infinite:
+                if not lp.orelse or always_exits(lp.orelse):
+                    if not lp.orelse:
+                        continue          # the loop can end normally with an unknown v
+                else:
+                    last = lp.orelse[-1]
+                    if not (isinstance(last, ast.Assign) and len(last.targets) == 1 and isinstance(last.targets[0], ast.Name) and last.targets[0].id == v):
+                        continue
+                    else_verdict = decide(last.value)
+                    if else_verdict is None:
+                        continue
+            if not arrivals and else_verdict is None:
+                continue
+            for owner, k, d in sorted(arrivals, key=lambda a: -a[1]):
+                if d:
+                    owner[k:k + 1] = copy.deepcopy(iff.body)
+            if else_verdict:
+                lp.orelse.extend(copy.deepcopy(iff.body))
+            del blk[i + 1]
+            self.bump("THREAD")
+            return True
+        return False
+
+    # -- DEADSTORE -------------------------------------------------------------------------------------------------
+    def deadstore(self, blk):
+        """`v = <literal>` for a local that is never read."""
+        for i, st in enumerate(blk):
+            if isinstance(st, ast.Assign) and len(st.targets) == 1 and isinstance(st.targets[0], ast.Name):
+                v = st.targets[0].id
+                if v in self.params or v in self.captured or self.loads.get(v):
+                    continue
+                e = st.value
+                if isinstance(e, ast.Constant) or (isinstance(e, ast.Name) and self.stable_name(e.id)):
+                    if len(blk) == 1:
+                        blk[i] = ast.copy_location(ast.Pass(), st)
+                    else:
+                        del blk[i]
+                    self.bump("DEADSTORE")
+                    return True
+        return False
 
     # -- KW --------------------------------------------------------------------------------------------------------
     def kw(self, blk):
@@ -853,7 +999,9 @@ class FuncCanon(object):
             if not all(id(l) in inside_later for l in loads):
                 continue
             # (b) pure expression over stable operands: substitute everywhere
-            if self.pure_stable(e) and (len(loads) == 1 or _expr_weight(e) <= 12):
+            #     (a helper's inlined result variable counts: it is written only inside the inlined region, which ends here)
+            is_ret_copy = isinstance(e, ast.Name) and e.id in self.fresh and e.id.endswith("ret") and i > 0
+            if (self.pure_stable(e) or is_ret_copy) and (len(loads) == 1 or _expr_weight(e) <= 12):
                 for l in loads:
                     self._replace(later, l, copy.deepcopy(e) if len(loads) > 1 else e)
                 del blk[i]
@@ -1318,7 +1466,10 @@ class Inliner(object):
             return True
         ret = tag + "ret"
         used = not (isinstance(st, ast.Expr) and st.value is holder)
-        tb = _tailify(body, ret if used else None, st)
+        try:
+            tb = _tailify(body, ret if used else None, st)
+        except Bail:
+            tb = _looptail(body, ret if used else None, st)
         if used:
             _replace_node(st, holder, ast.copy_location(ast.Name(id=ret, ctx=ast.Load()), holder))
             blk[i:i + 1] = pre + tb + [st]
@@ -1447,6 +1598,49 @@ def _tailify(stmts, ret, at):
     if ret is not None and not always_exits(out):
         out.append(ast.copy_location(ast.Assign(targets=[ast.copy_location(ast.Name(id=ret, ctx=ast.Store()), at)], value=ast.copy_location(ast.Constant(value=None), at)), at))
     return out
+
+
+def _looptail(stmts, ret, at):
+    """Helper body = statements without returns, then ONE loop whose returns sit directly in its body (under ifs only), then a
+    tail: each `return e` inside the loop becomes `ret = e; break`, and the tail moves into the loop's else-block (run exactly
+    when the loop ends without such a break)."""
+    k = None
+    for i, st in enumerate(stmts):
+        if _contains_return(st):
+            k = i
+            break
+    if k is None or not isinstance(stmts[k], (ast.While, ast.For, ast.AsyncFor)):
+        raise Bail("return inside try / with")
+    lp = stmts[k]
+    if lp.orelse or _own_breaks(lp.body):
+        raise Bail("loop with break/else and return")
+
+    def conv(body):
+        out = []
+        for st in body:
+            if isinstance(st, ast.Return):
+                if ret is not None:
+                    v = st.value if st.value is not None else ast.copy_location(ast.Constant(value=None), st)
+                    out.append(ast.copy_location(ast.Assign(targets=[ast.copy_location(ast.Name(id=ret, ctx=ast.Store()), st)], value=v), st))
+                elif st.value is not None and _has_call(st.value):
+                    out.append(ast.copy_location(ast.Expr(value=st.value), st))
+                out.append(ast.copy_location(ast.Break(), st))
+                return out
+            if isinstance(st, ast.If):
+                st.body = conv(st.body) or [ast.copy_location(ast.Pass(), st)]
+                st.orelse = conv(st.orelse)
+                out.append(st)
+            elif _contains_return(st):
+                raise Bail("return nested in an inner loop / try / with")
+            else:
+                out.append(st)
+        return out
+    lp.body = conv(lp.body)
+    tail = _tailify(stmts[k + 1:], ret, at)
+    infinite = isinstance(lp, ast.While) and _is_const_true(lp.test)
+    if not infinite:
+        lp.orelse = tail
+    return stmts[:k] + [lp]
 
 
 def _module_names(tree):
